@@ -778,11 +778,76 @@ def gen_hooks(cls, src, path):
     return '\n'.join(out)
 
 
+class _Rename(ast.NodeTransformer):
+    def __init__(self, old, new): self.old = old; self.new = new
+    def visit_Name(self, node):
+        if node.id == self.old: node.id = self.new
+        return node
+
+def gen_ctor(cls, src, path):
+    """Spectrum.__new__: what the `if data_folded:` block does to the array under construction (`subarr.data`, `subarr.mask`) between
+    `numpy.ma.masked_array(data, mask=mask, …)` and `if mask_corners: subarr.mask_corners()`.  The block is translated with the same
+    array-program translator as fold/unfold (the array under construction plays the part of `self`): the consistency checks
+    `if check_folding and not numpy.all(…): logger.warning(…)` have no effect on the array; every store into `subarr.data` /
+    `subarr.mask` becomes part of `ctor_selfDataAfter` / `ctor_selfMaskAfter`."""
+    new = method(cls, '__new__')
+    def norm(n): return re.sub(r'\s+', '', ast.unparse(n))
+    top = _strip_doc(new.body)
+    blocks = [(k, st) for k, st in enumerate(top) if isinstance(st, ast.If) and norm(st.test) == 'data_folded']
+    if len(blocks) != 1 or blocks[0][1].orelse:
+        raise TranslateError('__new__: expected exactly one top-level `if data_folded:` block without else (found %d)' % len(blocks))
+    kb, blk = blocks[0]
+    # the array is built before the block and its corners are masked after it; no other statement of __new__ touches data or mask
+    build = [k for k, st in enumerate(top) if norm(st).startswith('subarr=numpy.ma.masked_array(data,mask=mask,')]
+    view = [k for k, st in enumerate(top) if norm(st) == 'subarr=subarr.view(subtype)']
+    corners = [k for k, st in enumerate(top) if norm(st) == 'ifmask_corners:subarr.mask_corners()']
+    if not (len(build) == 1 and len(view) == 1 and len(corners) == 1 and build[0] < view[0] < kb < corners[0]):
+        raise TranslateError('__new__: order masked_array(…) / view / `if data_folded:` / `if mask_corners:` not found')
+    for k, st in enumerate(top):
+        if k in (kb, build[0], view[0], corners[0]): continue
+        for a in ast.walk(st):
+            tgs = a.targets if isinstance(a, ast.Assign) else [a.target] if isinstance(a, (ast.AugAssign, ast.AnnAssign)) else []
+            for t in tgs:
+                for tt in (t.elts if isinstance(t, (ast.Tuple, ast.List)) else [t]):
+                    tn = norm(tt)
+                    if tn == 'subarr' or tn.startswith(('subarr.mask', 'subarr.data', 'subarr[', 'subarr._mask', 'subarr._data')):
+                        raise TranslateError('__new__: store into %s outside the `if data_folded:` block' % tn)
+            if isinstance(a, ast.Call) and norm(a.func).startswith('subarr.') and norm(a.func) not in ('subarr.view',):
+                raise TranslateError('__new__: call %s outside the `if data_folded:` block' % norm(a.func))
+    P = ArrayProgram('ctor', src, path)
+    warn_only = []
+    for st in blk.body:
+        if isinstance(st, ast.If):
+            # a consistency check: may only warn
+            if st.orelse or not all(isinstance(b, ast.Expr) and isinstance(b.value, ast.Call) and norm(b.value.func).startswith('logger.')
+                                    for b in st.body):
+                raise TranslateError('__new__: conditional statement in the `if data_folded:` block that does more than warn: %s'
+                                     % _one_line(ast.unparse(st))[:120])
+            for a in ast.walk(st.test):
+                if isinstance(a, (ast.NamedExpr, ast.Lambda)) or (isinstance(a, ast.Call) and norm(a.func) not in ('numpy.all', 'numpy.any')):
+                    raise TranslateError('__new__: test of a consistency check calls %s' % norm(a))
+            warn_only.append(_one_line(ast.unparse(st.test)))
+            continue
+        if isinstance(st, ast.Expr) and isinstance(st.value, ast.Call) and norm(st.value.func).startswith('logger.'):
+            continue
+        P.stmt(_Rename('subarr', 'self').visit(st))
+    out = list(P.defs)
+    out.append('/-- %s `Spectrum.__new__`, block `if data_folded:` — data / mask of the array under construction when the block is left\n'
+               '    (stores: %s; consistency checks that only warn: %d) -/'
+               % (T.srcline(blk, path), '; '.join('`%s`' % t for t in P.mutations) if P.mutations else 'none', len(warn_only)))
+    out.append('def ctor_selfDataAfter %s : Rat := %s' % (PARAMS, P.self_term('data', 'i')))
+    out.append('def ctor_selfMaskAfter %s : Bool := %s' % (PARAMS, P.self_term('mask', 'i')))
+    out.append('/-- number of stores into the array under construction in that block -/')
+    out.append('def ctor_foldedBlockStores : Nat := %d' % len(P.mutations))
+    PROGRAM_DEFS['ctor'] = list(P.names) + ['ctor_selfDataAfter', 'ctor_selfMaskAfter']
+    return '\n'.join(out)
+
+
 def gen_unfold_macros():
     """tactics that unfold every definition of a translated program — the proofs name only the END results (`fold_outData`, …) and
     call these, so renaming / adding / removing an intermediate of `fold` / `unfold` does not touch any proof script"""
     out = []
-    for name in ('fold', 'unfold'):
+    for name in ('fold', 'unfold', 'ctor'):
         defs = PROGRAM_DEFS.get(name)
         if not defs: raise TranslateError('%s: no program definitions recorded' % name)
         out.append('/-- definitions of the translated `%s` program, in order -/' % name)
@@ -955,6 +1020,7 @@ def generate():
     out.append(structural)
     out.append(gen_method(method(cls, 'fold'), src, spath, new_defaults))
     out.append(gen_method(method(cls, 'unfold'), src, spath, new_defaults))
+    out.append(gen_ctor(cls, src, spath))
     out.append(gen_unfold_macros())
     out.append(gen_operators(cls, src, spath, new_defaults))
     out.append(gen_hooks(cls, src, spath))
